@@ -407,6 +407,7 @@ def for_property(prop, tier, seed=0):
     if prop in ('C01', 'C02'):
         fam = core_mix((0, 1) if quick else (0, 1, 2)) + future_mix((0, 1) if quick else (0, 1, 2)) + parked_drainer_families()[1:]
         fam += [s for s in fsync_families((0, 1) if quick else (0, 1, 2)) if s['name'].startswith(('FS_D_AW', 'D_FS_FD_AW'))]
+        fam += three_thread((0,))[:1]
         if not quick:
             fam += three_thread((0, 1, 2))
     elif prop == 'C03':
